@@ -309,6 +309,42 @@ def run(tier, seed, replay=None):
         rep.nontrivial.add(json.dumps(c, sort_keys=True))
         if len(rep.samples) < 6 and (c["rename"] != "none" or c["malformed"]):
             rep.sample({"cell": c, "substituted": want_sub, "f_type": ft["ident"]})
+    # one generic external path used twice with different parameters (inline members of one struct)
+    tp_cases, tp_meta = [], {}
+    for j, (pa, pb) in enumerate([("p1i", "p1r"), ("p1r", "p1i"), ("p2ir", "p2ri"), ("p1i", "p0")]):
+        def tgt(params):
+            x = {"crate": CRATE, "version": "1.2.3", "path": PATH}
+            if PARAMS[params]:
+                x["parameters"] = PARAMS[params]
+            return {"type": "object", "properties": {"v": {"type": "integer"}}, "required": ["v"], "x-rust-type": x}
+        doc = {"definitions": {"P1": {"type": "object", "properties": {"z": {"type": "boolean"}}},
+                               "User": {"type": "object", "required": ["a", "b"],
+                                        "properties": {"a": tgt(pa), "b": tgt(pb), "c": {"type": "array", "items": tgt(pa)}}}}}
+        cid = "tp%02d" % j
+        tp_cases.append({"id": cid, "settings": {"unknown_crates": "Generate", "crates": [{"name": CRATE, "version": "*"}]},
+                         "history": [{"op": "root", "schema": doc}], "opts": {"code": False, "has_impl": False, "hooks": False}})
+        tp_meta[cid] = (pa, pb)
+    if not replay:
+        res_tp = pipeline.Run(PROP, "twoparams").vgen(tp_cases)
+        for cid, res in res_tp.items():
+            pa, pb = tp_meta[cid]
+            rep.evaluations += 1
+            case = next(c_ for c_ in tp_cases if c_["id"] == cid)
+            if vgen.ingest_status(res) != "ok":
+                rep.violation("not_ingested", "two_params", {"steps": res.get("steps")}, case=case)
+                continue
+            types = {t["id"]: t for t in res["types"]}
+            user = next((t for t in res["types"] if t["kind"] == "struct" and t["name"] == "User"), None)
+            got = {p_["name"]: norm(types[p_["type_id"]]["ident"]) for p_ in (user or {}).get("props") or []}
+            def want(params):
+                ps = PARAM_IDENTS[params]
+                return "::ext_crate::m::Target" + ("<" + "".join(x + "," for x in ps) + ">" if ps else "")
+            exp = {"a": want(pa), "b": want(pb), "c": "::std::vec::Vec<%s>" % want(pa)}
+            if got != exp:
+                rep.violation("path", "two_params:%s/%s" % (pa, pb), {"expected": exp, "observed": got}, case=case)
+            else:
+                rep.count("two_params_ok")
+                rep.nontrivial.add("tp:%s/%s" % (pa, pb))
     rep.notes["cells"] = len(cs)
     rep.notes["hook_xrust_events"] = hook_x
     if hook_x == 0:
